@@ -199,8 +199,11 @@ CLAIMS = {
         "DFT coefficient of the samples on a circle of radius r is the sum of a_l r^l over l = k mod m - the identity the method rests on; "
         "Mathlib IsPrimitiveRoot, geom_sum); extrapolate_removes_two_terms (if bs_t = a + beta r_t^m + gamma r_t^2m the two Richardson passes of "
         "_extrapolate return a in every entry); failed_iff_cap (failed is set exactly when no iteration reported convergence, and then all "
-        "max_iter iterations ran). Tie: _num_taylor_coefficients exhaustively for n = 1..199, _extrapolate on dyadic data vs the Rat model, the "
-        "iteration loop replayed from the recorded convergence flags. Partial: FFT rounding, the heuristic radius search and the "
+        "max_iter iterations ran); radStep_converged_iff / radStep_bracket_mono / radRun_after_bracket (the bookkeeping of the radius search "
+        "as a state machine over what _check_fft and _poor_convergence report: once the radius is bracketed exactly num_extrap further "
+        "circles are computed). Tie: _num_taylor_coefficients exhaustively for n = 1..199, _extrapolate on dyadic data vs the Rat model, the "
+        "iteration loop replayed from the recorded convergence flags, the radius-search state replayed from the intercepted outputs of "
+        "_check_fft / _poor_convergence (exact). Partial: FFT rounding, the quality of the heuristic radius search and the "
         "accuracy-vs-estimate claim are explored by the search against closed-form series (one known finding recorded).",
    technique="Lean 4 proof (roots of unity / geometric sums, Richardson algebra, loop invariant) + exact correspondence + oracle search"),
  'C19': dict(
